@@ -50,6 +50,9 @@ StPath(c) ==
 FixLonePct(x) == LET t == Toks(x)
                  IN FlattenSeq([i \in 1..Len(t) |-> IF ~t[i].esc /\ t[i].b = PCT THEN <<PCT, 50, 53>> ELSE TokRaw(t[i])])
 Unq(K, x) == RefUnquote(K, FixLonePct(x))
+\* stage 5b: the path is unquoted segment by segment BEFORE dot segments are resolved ('%2E%2E' is '..')
+StUnqPath(c) == LET segs == SplitOn(c.path, 47) IN [c EXCEPT !.path = JoinWith([i \in 1..Len(segs) |-> Unq("path", segs[i])], 47)]
+
 MustEscape(ch) == ~IsAscii(ch) \/ IsControl(ch) \/ ch = 32
 Quo(K, x) == LET y == Unq(K, x) t == Toks(y)
              IN FlattenSeq([i \in 1..Len(t) |-> IF ~t[i].esc /\ MustEscape(t[i].b) THEN EscSeq(Utf8Enc(t[i].b)) ELSE TokRaw(t[i])])
@@ -78,6 +81,6 @@ StRepack(c) ==
   IN Unsplit(c.scheme, netloc, path, c.query, c.frag)
 
 RefCanon(u, dp, quoted, sf) ==
-  StRepack(StQuote(StPath(StFragment(StPort(StHost(StSplit(StPrepare(u, dp)))), sf)), quoted))
+  StRepack(StQuote(StPath(StUnqPath(StFragment(StPort(StHost(StSplit(StPrepare(u, dp)))), sf))), quoted))
 
 =============================================================================
